@@ -128,10 +128,22 @@ def run (inp : Input) : Run :=
 def okOuts (rs : List (Except GenErr ModuleOut)) : List ModuleOut :=
   rs.filterMap fun r => match r with | .ok o => some o | .error _ => none
 
-/-- C01-F5 / F6: `_resolve_selection_set` ignored an inline fragment or a spread (its type condition
-    is neither the position's type nor handled), or a field was looked up in the wrong type -/
-def trigDroppedSelection (r : Run) : Bool :=
-  (okOuts r.ops ++ okOuts (r.frags.map (·.2))).any (fun o => !o.st.dropped.isEmpty)
+/-- the object types a value of (named) type `n` can have at run time -/
+def runtimeTypes (S : Schema) (n : String) : List String :=
+  match S.kindOf? n with
+  | some .object => [n]
+  | _ => S.possibleTypes n
+
+/-- Ignoring a fragment whose type condition `cond` is an OBJECT type other than the class's type is
+    what the generator intends (that object gets its own class).  It loses data when `cond` is an
+    abstract type that can apply to an object the class stands for. -/
+def harmfulDrop (S : Schema) (d : String × String) : Bool :=
+  S.isAbstract d.1 && (runtimeTypes S d.2).any (runtimeTypes S d.1).contains
+
+/-- C01-F5 / F6: `_resolve_selection_set` ignored an inline fragment or a spread on another, overlapping
+    abstract type, or a field was looked up in the wrong type (ParsingError for a valid operation) -/
+def trigDroppedSelection (S : Schema) (r : Run) : Bool :=
+  (okOuts r.ops ++ okOuts (r.frags.map (·.2))).any (fun o => o.st.dropped.any (harmfulDrop S))
   || (r.ops ++ r.frags.map (·.2)).any fun x => match x with
     | .error (.parsing _) => true
     | _ => false
@@ -160,7 +172,7 @@ def triggers (inp : Input) : List String :=
   ++ (if trigTypenameAlias inp then ["typenameAlias"] else [])
   ++ (if trigDirOnFragment inp then ["dirOnFragment"] else [])
   ++ (if trigDupCompositeKey inp then ["dupCompositeKey"] else [])
-  ++ (if trigDroppedSelection r then ["droppedSelection"] else [])
+  ++ (if trigDroppedSelection inp.env.schema r then ["droppedSelection"] else [])
   ++ (if trigMixinAbstractField inp r then ["mixinAbstractField"] else [])
   ++ (if trigMixinAndUnpacked r then ["mixinAndUnpacked"] else [])
 
